@@ -390,7 +390,7 @@ fn eval_axis_node_test(
 
     let mut tested = vec![];
     for node in nodes {
-        if eval_node_test(test, node.clone(), context)? {
+        if eval_node_test(test, is_principal_node_type(axis, &node), node.clone(), context)? {
             tested.push(node);
         }
     }
@@ -431,12 +431,31 @@ fn eval_axis_node_test(
     Ok(nodes)
 }
 
+/// A name test selects only nodes of the principal node type of the axis: attributes on the
+/// attribute axis, namespace nodes on the namespace axis, elements on every other axis.
+fn is_principal_node_type(axis: &expr::AxisSpecifier, node: &dom::XmlNode) -> bool {
+    match axis {
+        expr::AxisSpecifier::Abbreviated(v) if v.as_str() == "@" => {
+            matches!(node, dom::XmlNode::Attribute(_))
+        }
+        expr::AxisSpecifier::Name(expr::AxisName::Attribute) => {
+            matches!(node, dom::XmlNode::Attribute(_))
+        }
+        expr::AxisSpecifier::Name(expr::AxisName::Namespace) => {
+            matches!(node, dom::XmlNode::Namespace(_))
+        }
+        _ => matches!(node, dom::XmlNode::Element(_)),
+    }
+}
+
 fn eval_node_test(
     test: &expr::NodeTest,
+    principal: bool,
     node: dom::XmlNode,
     context: &mut model::Context,
 ) -> error::Result<bool> {
     match test {
+        expr::NodeTest::Name(_) if !principal => Ok(false),
         expr::NodeTest::Name(name) => match name {
             expr::NameTest::All => Ok(true),
             expr::NameTest::Namespace(prefix) => {
